@@ -258,6 +258,12 @@ def obs(g) -> str:
     return ' '.join(parts)
 
 
+def enc_graph(g) -> str:
+    """the whole graph as one protocol token (see lean/CG/Driver/GraphCodec.lean)"""
+    return (('ts' if is_ts(g) else 'plain') + '/' + _join(enc_node(g, n) for n in g.get_nodes()) + '/'
+            + _join(enc_edge(e) for e in g.get_edges()) + '/' + enc_meta(g.meta))
+
+
 def ts_obs(g) -> str:
     nodes = g.get_nodes()
     lags = sorted({n.time_lag for n in nodes})
